@@ -1064,7 +1064,7 @@ class Check(PropertyCheck):
     def correspondence(self) -> List[Violation]:
         out: List[Violation] = []
         self.run_unit(out)
-        nrand = 150 if self.tier == "quick" else 6000
+        nrand = 120 if self.tier == "quick" else 6000
         nproj = 10 if self.tier == 'quick' else 600
         cases = self.project_cases(self.rng, nproj) + self.e2e_cases(nrand, self.rng)
         self.stats['e2e_random'] = nrand
